@@ -105,7 +105,7 @@ class _DebugLogging:
 
 
 ENV_MODES = {'O': ['-OO'], 'Werror': [], 'Threads': []}   # Werror: the -W error filter around each run; Threads: sim/duo.py
-ENV_MODE_TEXT = {'O': 'interpreter started with -OO (assert statements and docstrings stripped)', 'Werror': 'warnings raised as errors (-W error) and every logger at DEBUG',
+ENV_MODE_TEXT = {'O': 'interpreter started with -OO (assert statements and docstrings stripped), OpenSSL without legacy digests', 'Werror': 'warnings raised as errors (-W error) and every logger at DEBUG',
                  'Threads': 'a second caller thread interleaved at library lines by a seeded scheduler'}
 
 
@@ -180,6 +180,11 @@ def execute_plan(engine, plan, prop, known, keep_trace=False):
             # level=DEBUG)): every record any logger emits is formatted, by a handler that keeps nothing
             _dbg = _DebugLogging()
             stack.enter_context(_dbg)
+        if pymode() == 'O':
+            # ... and the build variation that goes with a hardened production interpreter: an OpenSSL without
+            # the legacy provider (hashlib lists ripemd160 but cannot instantiate it)
+            from . import seams as _seams
+            stack.enter_context(_seams.NoLegacyDigests())
         dcfg = (plan.get('config') or {}).get('duo')
         if dcfg:
             # a second caller thread runs operations of its own, interleaved with this run at library lines
@@ -776,7 +781,8 @@ def run_check(prop, tier, base_seed=None, budget_s=None, workers=None, runs=None
             if nsys > 2000 or mode == 'Threads':
                 env['VERIF_SKIP_SYSTEMATIC'] = '1'
             if mode == 'Threads':
-                env['VERIF_RUNS'] = str(max(40, min(120, runs // 12)))
+                # (every run is executed twice - the determinism re-execution - and is an order of magnitude slower under tracing)
+                env['VERIF_RUNS'] = str(max(40, min(120 if tier == 'quick' else 6000, runs // 12)))
             try:
                 pr = subprocess.run([sys.executable, os.path.join(VERIF, 'vf'), 'check', prop, '--tier', tier], capture_output=True, text=True, env=env,
                                     cwd=VERIF, timeout=max(600.0, budget_s))
@@ -793,6 +799,8 @@ def run_check(prop, tier, base_seed=None, budget_s=None, workers=None, runs=None
                     if mode == 'Threads':
                         ff = oe['coverage'].get('faults_fired', {})
                         agg['envpass'][mode]['preemptions_of_the_first_thread'] = int(ff.get('second-caller-thread.switches', 0))
+                        agg['envpass'][mode]['preemptions_while_both_threads_use_one_object'] = int(ff.get('shared-object.switches', 0))
+                        agg['envpass'][mode]['operations_on_shared_objects_judged'] = int(oe['coverage'].get('probes', {}).get('shared-object-ops-judged', 0))
                         agg['envpass'][mode]['scheduler'] = 'baton-passing real threads; pre-emption points = line events in the library sources, chosen by the plan\'s PRNG (sim/duo.py)'
                 except (OSError, ValueError, KeyError):
                     agg['envpass'][mode] = {'runs': 0, 'exit': rc}
